@@ -52,6 +52,52 @@ theorem both_drivers : ∀ a ∈ rows, (rows.filter fun b => b.op = a.op ∧ b.d
 theorem one_row_per_op_and_driver :
     ∀ a ∈ rows, (rows.filter fun b => b.op = a.op ∧ b.driver = a.driver).length = 1 := by decide
 
+/-! ### lengths handed to the OS -/
+
+def lensOk (r : Row) : Bool :=
+  r.byteLens.all (fun k => k == .saturating || k == .full) && r.countLens.all (fun k => k != .cast)
+
+/-- every byte length an op hands to the OS is derived by saturation to `u32::MAX` or passed as `usize`; no
+row narrows a length with a plain cast (iovec counts: saturated, `usize`, or stored into `msg_iovlen`) -/
+theorem length_law : ∀ r ∈ rows, lensOk r = true := by decide
+
+/-- **every length handed to the OS is `min(len, u32::MAX)` or `len` itself, never a wrapped value** — for
+every row of the regenerated table, every derivation in it and every buffer length; in particular the OS is
+asked for 0 bytes only for an empty buffer (no false end-of-file on buffers of 4 GiB and more), and never for
+more than the buffer holds -/
+theorem length_never_wrapped :
+    ∀ r ∈ rows, ∀ k ∈ r.byteLens, ∀ n : Nat,
+      (lenHanded k n = min n u32Max ∨ lenHanded k n = n) ∧ lenHanded k n ≤ n ∧ (lenHanded k n = 0 → n = 0) := by
+  intro r hr k hk n
+  have h := length_law r hr
+  simp only [lensOk, Bool.and_eq_true, List.all_eq_true] at h
+  have hk' := h.1 k hk
+  have : k = .saturating ∨ k = .full := by
+    cases k <;> simp_all
+  rcases this with rfl | rfl
+  · refine ⟨Or.inl rfl, ?_, ?_⟩
+    · simp only [lenHanded]; omega
+    · simp only [lenHanded, u32Max]; omega
+  · exact ⟨Or.inr rfl, Nat.le_refl _, fun h => h⟩
+
+/-- the lookups of the model driver for the huge-capacity reads: io_uring saturates, polling passes the slice -/
+theorem lenOf_read_ops :
+    lenOf .Read .iour = some .saturating ∧ lenOf .ReadAt .iour = some .saturating ∧
+    lenOf .Read .poll = some .full ∧ lenOf .ReadAt .poll = some .full := by decide
+
+/-- a read into a fresh buffer of any capacity ≥ the available bytes delivers all of them, on every read row
+(this is what fails for a wrapped length: capacity 2^32 would deliver nothing) -/
+theorem huge_read_delivers_all :
+    ∀ r ∈ rows, ∀ k ∈ r.byteLens, ∀ (cap : Nat) (avail : Bytes),
+      avail.length ≤ cap → avail.length ≤ u32Max → hugeRead k cap avail = avail := by
+  intro r hr k hk cap avail h1 h2
+  obtain ⟨h, _, _⟩ := length_never_wrapped r hr k hk cap
+  unfold hugeRead
+  apply List.take_of_length_le
+  rcases h with h | h <;> rw [h] <;> omega
+
+example : lenHanded .cast (2 ^ 32) = 0 ∧ lenHanded .saturating (2 ^ 32) = 2 ^ 32 - 1 := by decide
+
 def expectedMapping (p : BufParam) : Mapping :=
   match p.dir, p.vectored with
   | .read, false => .advanced
